@@ -147,6 +147,34 @@ func GenC04(t *rapid.T) *C04Case {
 		}
 		return &C04Case{Mode: "deep", Unit: deepUnits[drawIdx(t, len(deepUnits), "unit")], Depth: drawInt(t, 1000, max, "depth"), Closed: drawBool(t, "closed")}
 	}
+	if oneIn(t, 25, "filedoc") {
+		// documents that are (nearly) valid objects with the layouts a file reader might mangle:
+		// CR LF / bare CR between tokens and raw inside strings, a UTF-8 BOM-less long first line,
+		// and single lines longer than common buffer sizes (4 KiB, 64 KiB)
+		cfg := TreeCfg{MaxDepth: 3, MaxWidth: 4, MaxStr: 6}
+		v := GenObjectV(t, cfg, 3)
+		eol := []string{"\r\n", "\n", "\r", "\r\n\r\n"}[drawIdx(t, 4, "eol")]
+		if len(v.O) == 0 {
+			v.O = append(v.O, Pair{"k", VStr("v")})
+		}
+		v.O[0].V = VStr("line1" + eol + "line2") // written raw below
+		doc := RenderJSON(v)
+		doc = strings.ReplaceAll(doc, strings.ReplaceAll(strings.ReplaceAll(eol, "\r", "\\u000d"), "\n", "\\u000a"), eol) // raw line break inside the string
+		doc = strings.ReplaceAll(doc, ",", ","+eol)
+		if oneIn(t, 3, "longline") {
+			n := []int{4096, 4097, 65535, 65536, 65537, 70000}[drawIdx(t, 6, "linelen")]
+			if !Thorough() && n > 5000 && !oneIn(t, 4, "long64k") {
+				n = 4097
+			}
+			pad := strings.Repeat(" ", n)
+			if drawBool(t, "padinstring") {
+				doc = strings.Replace(doc, "line2", "line2"+strings.Repeat("x", n), 1)
+			} else {
+				doc = strings.Replace(doc, "{", "{"+pad, 1)
+			}
+		}
+		return &C04Case{Mode: "bytes", Bytes: RawBytes(doc)}
+	}
 	if pick(t, "mode", 80, 20) == 0 {
 		return &C04Case{Mode: "bytes", Bytes: genBytes(t)}
 	}
